@@ -335,6 +335,37 @@ def run_shard(spec, tier, seed):
             if g.dtype.names != names or g.size != 1 or not all(B.same_bits(float(g[nm].reshape(-1)[0]), float(c)) for nm, c in zip(names, row)):
                 V(f"object-array-form-wrong-content form={fname}", names=list(g.dtype.names or ()), shape=list(g.shape))
             res.cell("object-array-form:" + fname, sn, fl)
+            # history: the array form is a fresh array every time -- writing into one result, or changing the object, must
+            # not show in (or be hidden from) the next conversion
+            try:
+                a1 = f()
+                numpy.asarray(a1).view(numpy.ndarray)[names[0]] = 99.5
+                a2 = f()
+                g2 = numpy.asarray(a2).view(numpy.ndarray)
+                if a2 is a1 or numpy.shares_memory(g2, numpy.asarray(a1).view(numpy.ndarray)):
+                    V(f"object-array-form-is-not-a-fresh-array form={fname}")
+                elif not all(B.same_bits(float(g2[nm].reshape(-1)[0]), float(c)) for nm, c in zip(names, row)):
+                    V(f"object-array-form-stale-after-writing-into-an-earlier-result form={fname}",
+                      got=[repr(float(g2[nm].reshape(-1)[0])) for nm in names], expected=[repr(c) for c in row])
+                if B.obj_stored(o)[1] != tuple(float(c) for c in row):
+                    V(f"writing-into-the-array-form-changed-the-object form={fname}")
+                # change the object through a setter of another coordinate system, then convert again
+                o2 = B.mk_obj(system, row, mom)
+                f2 = (lambda: o2.__array__()) if fname == "__array__" else (lambda: numpy.asanyarray(o2))
+                f2()
+                if system[0] == "xy":
+                    o2.rho = 2.5
+                else:
+                    o2.x = 1.25
+                a3 = f2()
+                g3 = numpy.asarray(a3).view(numpy.ndarray)
+                nsys, nstored = B.obj_stored(o2)
+                nn = R.field_names(nsys)
+                if g3.dtype.names != nn or not all(B.same_bits(float(g3[nm].reshape(-1)[0]), float(c)) for nm, c in zip(nn, nstored)):
+                    V(f"object-array-form-stale-after-assignment form={fname}", names=list(g3.dtype.names or ()), expected_names=list(nn))
+                res.cell("object-array-form-history:" + fname, sn, fl)
+            except Exception as e:
+                V(f"object-array-form-history-raises form={fname}", exc=f"{type(e).__name__}: {e}"[:200])
     res.sample({"system": sn, "flavor": fl, "row0": [repr(x) for x in obj_rows[0]], "forms": [f"{sh}:{fo}" for sh, fo in forms]})
     return res
 
